@@ -16,7 +16,7 @@ pub fn registry(property: &str) -> Option<CheckSpec> {
         "C33" => Some(CheckSpec {
             property: "C33",
             level: "exploration",
-            parts: vec![Part::new(referral::ReferralSim, 50_000, 900_000)],
+            parts: vec![Part::new(referral::ReferralSim, 80_000, 1_200_000)],
             assumptions: vec![
                 "a single store (the multi-store feature is off); wallets are funded; only user <-> user and code <-> code account substitutions are tried as byzantine twins".into(),
             ],
@@ -24,7 +24,7 @@ pub fn registry(property: &str) -> Option<CheckSpec> {
         "C31" => Some(CheckSpec {
             property: "C31",
             level: "exploration",
-            parts: vec![Part::new(discount::DiscountSim, 100_000, 2_000_000)],
+            parts: vec![Part::new(discount::DiscountSim, 160_000, 2_500_000)],
             assumptions: vec![
                 "the maximum rank is fixed by initialize_gt (it cannot be changed afterwards), so each run explores one rank table size".into(),
                 "a referred-user factor above 100 % is outside the statement's domain (\"factors up to 100 %\"): the setters accept it and the computation then fails; this is counted by a probe, not reported".into(),
@@ -33,7 +33,7 @@ pub fn registry(property: &str) -> Option<CheckSpec> {
         "C30" => Some(CheckSpec {
             property: "C30",
             level: "exploration",
-            parts: vec![Part::new(gt::GtSim, 15_000, 250_000), Part::new(gtorder::GtOrderSim, 2_000, 30_000)],
+            parts: vec![Part::new(gt::GtSim, 24_000, 350_000), Part::new(gtorder::GtOrderSim, 3_000, 40_000)],
             assumptions: vec![
                 "exchange windows other than 86400 s are forged into the store account because gt_set_exchange_time_window is compiled out without the test-only feature".into(),
                 "a single mint crosses at most 3000 grow steps (the program loops once per step)".into(),
